@@ -112,6 +112,8 @@ type Peer struct {
 	FirstRxAt time.Duration
 	noVerify  bool
 	scriptSet bool
+	// CloseOnEnd makes the peer close its socket when it sees end-of-stream or an error, as a normal program does.
+	CloseOnEnd bool
 }
 
 func NewPeer(r *Run, name, role string, conn net.Conn, txKey uint64, cands []Candidate) *Peer {
@@ -148,7 +150,15 @@ func (p *Peer) readLoop() {
 				p.RxErr = err
 			}
 			p.RxEndAt = p.r.SimElapsed()
+			doClose := p.CloseOnEnd && !p.Closed
+			if doClose {
+				p.Closed = true
+				p.ClosedAt = p.r.SimElapsed()
+			}
 			p.mu.Unlock()
+			if doClose {
+				p.Conn.Close()
+			}
 			break
 		}
 	}
@@ -392,7 +402,30 @@ func firstByte(key uint64) byte {
 	return b[0]
 }
 
+type ukey struct {
+	seed uint64
+	kind string
+	a, i int
+}
+
+var ukeyCache = map[ukey]uint64{}
+var ukeyMu sync.Mutex
+
 func uniqueKey(seed uint64, kind string, a, i int) uint64 {
+	ukeyMu.Lock()
+	defer ukeyMu.Unlock()
+	if len(ukeyCache) > 100000 {
+		ukeyCache = map[ukey]uint64{}
+	}
+	if k, ok := ukeyCache[ukey{seed, kind, a, i}]; ok {
+		return k
+	}
+	k := uniqueKeySlow(seed, kind, a, i)
+	ukeyCache[ukey{seed, kind, a, i}] = k
+	return k
+}
+
+func uniqueKeySlow(seed uint64, kind string, a, i int) uint64 {
 	var prev []byte
 	for x := 0; x <= i; x++ {
 		for salt := 0; ; salt++ {
